@@ -106,11 +106,14 @@ BOUNDS_TEXT = {
 }
 
 
+BUDGET = {"quick": 120.0, "thorough": 600.0}
+
+
 def plan(tier, seed):
     if tier == "quick":
         return [
-            dict(scenario="cos", params=dict(submitters=1), bounds=dict(lpredict=True, P=2, post_release=True)),
-            dict(scenario="cos", params=dict(submitters=2), bounds=dict(lpredict=True, P=1, post_release=True)),
+            dict(scenario="cos", params=dict(submitters=1), bounds=dict(lpredict=True, P=3, post_release=True)),
+            dict(scenario="cos", params=dict(submitters=2), bounds=dict(lpredict=True, P=2, post_release=True)),
             dict(scenario="cos", params=dict(submitters=1, resubmit=True), bounds=dict(lpredict=True, P=2, post_release=True)),
         ]
     return [
